@@ -347,6 +347,13 @@ def obligations(tier):
                       bounds='message ids: symbolic str <= 3 chars; 0..2 other ids known before; one looped-back or foreign datagram',
                       claim='the MessageID is in _known_message_ids at every put of add_outbound_message; a received message is '
                             'dispatched to WSDiscovery iff its id is not known, so the node\'s own multicast is ignored'))
+    obs.append(Ob('C15.own.loopback_after_traffic', 'harness.C15', 'own_loopback_after_traffic', timeout=tc, functions=F_OWN,
+                  stubs=['NetworkingThread made with __new__ (no sockets, no threads); _known_message_ids = deque(maxlen=2..4) instead of 200',
+                         'nt.random / nt.time replaced by deterministic stubs; message_reader returns a prepared message with the chosen id'],
+                  bounds='id memory of 2..4 (symbolic), 0..maxlen foreign ids known before (symbolic), own message sent, 0..maxlen-1 new '
+                         'foreign messages received (symbolic), then the own message looped back',
+                  claim='sent and received ids share one memory consistently: the own message is still ignored while fewer ids than the '
+                        'memory holds were recorded after it'))
     return obs
 
 
